@@ -326,14 +326,18 @@ Definition convert_all_attrs (aunits : list aunit) : res (idmap * list cdie) :=
 (* ------------------------------------------------------------------------------------------ *)
 (* 6. Split DWARF: FilterUnitSection::new_split reads every unit of the .dwo section into one dependency
    map exactly like FilterUnitSection::new; ConvertSplitUnitSection::new_with_filter converts the FIRST unit
-   and hands ALL reachable offsets to new_with_offsets (no per-unit slicing).                     *)
+   and (as repaired, FIXCOMMIT) hands new_with_offsets the reachable offsets that lie in that unit:
+   `offsets.retain(|offset| offset.to_unit_offset(&split_unit).is_some())`.                        *)
+Definition own_offsets (u : unitd) (offs : list N) : list N :=
+  filter (fun x => match to_unit_offset u x with Some _ => true | None => false end) offs.
+
 Definition convert_split_filtered rf (dbg : bool) (req : N -> bool) (units : list unitd)
   : res (list (N * N)) :=
   match units with
   | [] => Err EMissingSplitUnit
   | u :: _ =>
       let* offs := reserved rf dbg req units in
-      convert_units (root_off u :: offs) [u] []
+      convert_units (root_off u :: own_offsets u offs) [u] []
   end.
 
 (* the same with the attribute-by-attribute tolerant loop (no attribute aborts the conversion) *)
@@ -343,10 +347,9 @@ Definition convert_split_filtered_tol rf (dbg : bool) (req : N -> bool) (units :
   | [] => Err EMissingSplitUnit
   | u :: _ =>
       let* offs := reserved rf dbg req units in
-      convert_units_tol (root_off u :: offs) [u] []
+      convert_units_tol (root_off u :: own_offsets u offs) [u] []
   end.
 
-(* the references of the DIEs of the converted (first) unit that are resolved although their target is never
-   emitted: reserved DIEs of ANOTHER unit of the .dwo section (new_with_offsets inserts every reachable offset) *)
+(* a reachable DIE of ANOTHER unit of the .dwo section: not reserved by the split path *)
 Definition split_foreign (u0 : unitd) (offs : list N) (y : N) : bool :=
   mem_n y offs && negb (match to_unit_offset u0 y with Some _ => true | None => false end).
